@@ -68,7 +68,8 @@ def gen_case(run_seed: int, index: int, tier: str) -> dict:
         "input": rng.choice(["random", "random", "random", "sparse", "dense", "all_one", "all_zero"]),
         "erasure_symbol": es, "torch_seed": rng.randrange(1 << 31), "data_seed": rng.randrange(1 << 31),
         "how": rng.choice(["class", "class", "registry"]), "p_as_tensor": rng.random() < 0.2,
-        "warmup": rng.choice([None, None, [3], [2, 5], [4, 1, 2]]),  # an earlier call on the same channel object, other shape
+        "warmup": rng.choice([None, None, [3], [2, 5], [4, 1, 2]]),  # earlier calls on the same channel object, other shape
+        "warmup_n": rng.choice([1, 1, 2, 4]), "other_instance_first": rng.random() < 0.2, "mode": rng.choice([None, None, "eval", "train"]),
         "noncontig": rng.random() < 0.25,
     }
 
@@ -127,15 +128,24 @@ def execute(case: dict) -> RunResult:
         x = x.transpose(0, -1).contiguous().transpose(0, -1)  # same values, non-contiguous memory
         res.probes["input.noncontiguous"] += 1
     x0 = x.clone()
+    if case.get("other_instance_first"):
+        # another object of the same class, other probability, is created and used first (class-level state would show)
+        other = dict(case, p=0.5 if case["p"] != 0.5 else 0.25, how="class")
+        torch.manual_seed(case["torch_seed"] ^ 0x777)
+        _channel(other)(torch.randint(0, 2, (4, 6)).to(torch.float32))
+        res.faults["history.other_instance_first"] += 1
     ch = _channel(case)
+    if case.get("mode"):
+        ch.train(case["mode"] == "train")
     if case.get("warmup"):
         w = torch.randint(0, 2, case["warmup"], generator=torch.Generator().manual_seed(case["data_seed"] ^ 0x33))
         if case["alphabet"] == "pm1":
             w = 2 * w - 1
             w.reshape(-1)[0] = -1
         torch.manual_seed(case["torch_seed"] ^ 0x1234)
-        ch(w.to(DT[case["dtype"]]))
-        res.faults["history.earlier_call_on_same_object"] += 1
+        for _ in range(case.get("warmup_n", 1)):
+            ch(w.to(DT[case["dtype"]]))
+            res.faults["history.earlier_call_on_same_object"] += 1
     torch.manual_seed(case["torch_seed"])
     y = ch(x)
     log.add("output", y)
